@@ -90,6 +90,21 @@ func sign(method jwt.SigningMethod, key interface{}, scope string, exp time.Time
 	return s
 }
 
+// the genuine token of the controls and the tokens forged from it share header and claims (same expiry)
+var fixedExp = time.Unix(2100000000, 0)
+
+// forgedFrom keeps header and claims of the genuine token and replaces its signature.
+func forgedFrom(svc string, resign bool) string {
+	parts := strings.Split(sign(jwt.SigningMethodRS512, nrfKey, svc, fixedExp), ".")
+	sig := "AAAA"
+	if resign {
+		if b, err := jwt.SigningMethodRS512.Sign(parts[0]+"."+parts[1], otherKey); err == nil {
+			sig = base64.RawURLEncoding.EncodeToString(b)
+		}
+	}
+	return parts[0] + "." + parts[1] + "." + sig
+}
+
 type tokenClass struct {
 	name   string
 	header func(svc string, garbage string) (string, bool) // value, present
@@ -130,6 +145,8 @@ var tokenClasses = []tokenClass{
 		s := sign(jwt.SigningMethodRS512, nrfKey, svc, time.Now().Add(time.Hour))
 		return "Bearer " + s[:len(s)-6], true
 	}},
+	{"genuine-token-resigned-with-other-key", func(svc string, _ string) (string, bool) { return "Bearer " + forgedFrom(svc, true), true }},
+	{"genuine-token-with-garbage-signature", func(svc string, _ string) (string, bool) { return "Bearer " + forgedFrom(svc, false), true }},
 	{"rs512-nrf-key-payload-swapped", func(svc string, _ string) (string, bool) {
 		s := strings.Split(sign(jwt.SigningMethodRS512, nrfKey, svc, time.Now().Add(time.Hour)), ".")
 		pl, _ := json.Marshal(map[string]interface{}{"scope": svc, "iss": "attacker"})
@@ -140,9 +157,10 @@ var tokenClasses = []tokenClass{
 
 type RouteCase struct {
 	Services []string `json:"services"`
-	Params   []string `json:"params"`  // values substituted for :parameters
-	Garbage  string   `json:"garbage"` // token garbage
-	Late     bool     `json:"late"`    // OAuth2 becomes mandatory after the router was built (the real start-up order: NewServer, then NRF registration)
+	Params   []string `json:"params"`           // values substituted for :parameters
+	Garbage  string   `json:"garbage"`          // token garbage
+	NoCert   bool     `json:"noCert,omitempty"` // OAuth2 is mandatory but no NRF certificate is configured (nrfCertPem empty): nothing can be verified, so nothing may pass
+	Late     bool     `json:"late"`             // OAuth2 becomes mandatory after the router was built (the real start-up order: NewServer, then NRF registration)
 }
 
 func validBody(supi string) []byte {
@@ -190,8 +208,13 @@ func judgeRoute(c RouteCase) *h.Verdict {
 	cfg := stackenv.BaseConfig(env.FM.URL(), env.RfPort, env.AbmfPort, env.PemFile, env.KeyFile)
 	cfg.Configuration.ServiceNameList = c.Services
 	verifapi.Init(cfg)
+	pem := nrfPem
+	if c.NoCert {
+		pem = ""
+		v.Label("no-nrf-certificate-configured")
+	}
 	if !c.Late {
-		verifapi.SetOAuth(true, nrfPem)
+		verifapi.SetOAuth(true, pem)
 	}
 	engine, err := verifapi.NewEngine()
 	if err != nil {
@@ -199,7 +222,7 @@ func judgeRoute(c RouteCase) *h.Verdict {
 	}
 	if c.Late {
 		v.Label("oauth-required-after-router-built")
-		verifapi.SetOAuth(true, nrfPem)
+		verifapi.SetOAuth(true, pem)
 	}
 	v.Label(fmt.Sprintf("config:%d-services", len(c.Services)))
 	routes := engine.Routes()
@@ -279,14 +302,17 @@ func judgeRoute(c RouteCase) *h.Verdict {
 		for _, ctl := range []string{"valid-token", "oauth-off"} {
 			req := httptest.NewRequest(rt.Method, substitute(rt.Path, []string{supi + "_1"}, 0), bytes.NewReader(validBody(supi)))
 			req.Header.Set("Content-Type", "application/json")
+			if ctl == "valid-token" && c.NoCert {
+				continue // without a certificate a genuine token cannot be told from a forged one either
+			}
 			if ctl == "valid-token" {
-				req.Header.Set("Authorization", "Bearer "+sign(jwt.SigningMethodRS512, nrfKey, svc, time.Now().Add(time.Hour)))
+				req.Header.Set("Authorization", "Bearer "+sign(jwt.SigningMethodRS512, nrfKey, svc, fixedExp))
 			} else {
 				verifapi.SetOAuth(false, nrfPem)
 			}
 			rec := httptest.NewRecorder()
 			engine.ServeHTTP(rec, req)
-			verifapi.SetOAuth(true, nrfPem)
+			verifapi.SetOAuth(true, pem)
 			if rec.Code == 401 {
 				return v.Failf("control-"+ctl+"-rejected", "control %s: %s %s answered 401 %.200s", ctl, rt.Method, rt.Path, rec.Body.String())
 			}
@@ -310,6 +336,11 @@ func TestC13AllConfigs(t *testing.T) {
 					return
 				}
 			}
+			if len(cfg) == 3 || len(cfg) == 1 {
+				if !yield(RouteCase{Services: cfg, Params: []string{"x", "imsi-208930000000001_1"}, Garbage: "not.a.jwt", NoCert: true}) {
+					return
+				}
+			}
 		}
 	}, judgeRoute, true)
 }
@@ -317,7 +348,7 @@ func TestC13AllConfigs(t *testing.T) {
 func TestC13Random(t *testing.T) {
 	cfgs := allConfigs()
 	h.Run(t, "C13", "random", func(t *rapid.T) RouteCase {
-		c := RouteCase{Services: rapid.SampledFrom(cfgs).Draw(t, "services"), Late: rapid.Bool().Draw(t, "late")}
+		c := RouteCase{Services: rapid.SampledFrom(cfgs).Draw(t, "services"), Late: rapid.Bool().Draw(t, "late"), NoCert: rapid.IntRange(0, 5).Draw(t, "noCert") == 0}
 		n := rapid.IntRange(1, 3).Draw(t, "nParams")
 		for i := 0; i < n; i++ {
 			c.Params = append(c.Params, rapid.StringMatching(`[a-zA-Z0-9_\-\.~]{1,24}`).Draw(t, "param"))
